@@ -171,7 +171,8 @@ def oracle_batch(args):
     import mudslide
     model = mudslide.models.scattering_models[args["model"]]()
     gen = mudslide.TrajGenConst(args["x0"], args["k"], 0, seed=args["seed"])
-    kw = dict(samples=1, dt=args["dt"], bounds=[-args["box"], args["box"]], max_steps=args["maxsteps"], spawn_stack=args["stack"],
+    nroots = int(args.get("samples", 1))
+    kw = dict(samples=nroots, dt=args["dt"], bounds=[-args["box"], args["box"]], max_steps=args["maxsteps"], spawn_stack=args["stack"],
               quadrature=args["quadrature"], mcsamples=args.get("mcsamples", 1))
     if args.get("tree") is not None:
         from mudslide.even_sampling import SpawnStack
@@ -182,8 +183,8 @@ def oracle_batch(args):
     ws = [float(t.weight) for t in tm.traces]
     if min(ws) < 0:
         problems.append("negative weight %r" % min(ws))
-    if not close(sum(ws), 1.0, 1.0, rtol=1e-11):
-        problems.append("weights of the %d trajectories sum to %r" % (len(ws), sum(ws)))
+    if not close(sum(ws), float(nroots), float(nroots), rtol=1e-11):
+        problems.append("weights of the %d trajectories sum to %r; %d initial condition(s) of weight one each were run" % (len(ws), sum(ws), nroots))
     oc = np.asarray(tm.outcomes)
     if not close(float(np.sum(oc)), 1.0, 1.0, rtol=1e-11):
         problems.append("batch outcomes sum to %r" % float(np.sum(oc)))
@@ -468,8 +469,10 @@ def run(ctx):
                  quadrature=str(rng.choice(["gl", "midpoint", "trapezoid", "cc"])), mcsamples=int(rng.integers(1, 3)))
         if i % 4 == 3:
             a["tree"] = random_tree(rng, 2, dyadic=True)
+        if i % 2 == 1:
+            a["samples"] = int(rng.integers(2, 4))      # several initial conditions built from ONE user-supplied stack / option value
         ok, obs, req, text = oracle_batch(a)
-        ctx.case(("batch", a["model"], a["quadrature"], len(a["stack"]), a["mcsamples"], a.get("tree") is not None))
+        ctx.case(("batch", a["model"], a["quadrature"], len(a["stack"]), a["mcsamples"], a.get("tree") is not None, a.get("samples", 1)))
         ctx.count("batches")
         if "ntraces" in obs:
             ctx.count("batch_traces", obs["ntraces"])
